@@ -100,6 +100,31 @@ Theorem C14_reload_loop_locked_tasks : forall (locks : list tid) (fuel : nat) (s
 Proof. exact run_phases_l_locked. Qed.
 Print Assumptions C14_reload_loop_locked_tasks.
 
+(* results may also DISAPPEAR while the worker runs (another process runs jug invalidate / cleanup): [rms] = what is
+   removed before each load.  Each phase is [load] of the store as it is at that moment - nothing seen in an earlier
+   phase is remembered - so (a) applies to every phase: a barrier() is passed only if every task before it has a
+   result THEN.  With nothing removed it is the loop above. *)
+Theorem C14_reload_loop_shrinking_store : forall (rms : list (list tid)) (f : nat) (st : store) (p : jprog),
+  run_phases_rm rms (S f) st p =
+  let st0 := remove_keys (hd [] rms) st in
+  let l := load st0 p in
+  let '(st1, ex) := exec_all st0 (l_tasks l) in
+  if l_hasbarrier l then let '(st2, exs) := run_phases_rm (tl rms) f st1 p in (st2, ex :: exs)
+  else (st1, [ex]).
+Proof. exact run_phases_rm_step. Qed.
+Print Assumptions C14_reload_loop_shrinking_store.
+
+Theorem C14_reload_loop_nothing_removed : forall (fuel : nat) (st : store) (p : jprog),
+  run_phases_rm [] fuel st p = run_phases fuel st p.
+Proof. exact run_phases_rm_nil. Qed.
+Print Assumptions C14_reload_loop_nothing_removed.
+
+Theorem C14_barrier_after_removal : forall (rms : list (list tid)) (st : store) (p : jprog) (pre post : list ev),
+  l_events (load (remove_keys (hd [] rms) st) p) = pre ++ EBar :: post ->
+  forall t, In (ETask t) pre -> stored (remove_keys (hd [] rms) st) (tid_of t) = true.
+Proof. exact run_phases_rm_barrier. Qed.
+Print Assumptions C14_barrier_after_removal.
+
 (* ------------------------------------------------------------------ (b'') `jug sleep-until`
    [sleep_until fuel st incs p] (Model/Loader.v) is SleepUntilCommand.run: load; wait - one sleep per failed poll,
    during which the other workers add [incs]'s next element to the store - until every loaded task has a result;
